@@ -224,7 +224,7 @@ func parenthesize(file *ast.File) {
 				n.X = &ast.ParenExpr{X: n.X}
 			}
 		case *ast.ChanType:
-			if v, ok := n.Value.(*ast.ChanType); ok && n.Dir != ast.RECV && v.Dir == ast.RECV {
+			if v, ok := n.Value.(*ast.ChanType); ok && n.Dir == ast.SEND|ast.RECV && v.Dir == ast.RECV {
 				n.Value = &ast.ParenExpr{X: n.Value}
 			}
 		}
